@@ -1045,4 +1045,55 @@ def rule_r(ctx: Ctx) -> None:
                 'handler coverage for ElementPathError.')
 
 
-RULES = [rule_a, rule_b, rule_c, rule_d, rule_e, rule_f, rule_g, rule_h, rule_i, rule_j, rule_k, rule_l, rule_m, rule_n, rule_o, rule_p, rule_q, rule_r]
+def rule_s(ctx: Ctx) -> None:
+    """A document may name its schema (xsi:schemaLocation).  When that schema is wrong the *instance* is reported invalid - iter_errors() collects - whatever
+    the way the schema is wrong: not parsable (XMLSchemaParseError) or with a non-deterministic content model (XMLSchemaModelError, raised by check_model).
+    Every class raised by the build of a schema for a defect of the schema has a reporting handler at the sites that build a hinted schema."""
+    rule = 'C11.s'
+    idx = ctx.idx
+    # the classes the build raises for a defective schema: the parse-error reporter (strict) and the model checker
+    raised: dict[str, set[str]] = {}
+    pe = idx.func('xmlschema.validators.xsdbase.XsdValidator.parse_error')
+    for r in ast.walk(pe.node):
+        if isinstance(r, ast.Raise) and isinstance(r.exc, ast.Name) and r.exc.id == 'error':
+            raised['XMLSchemaParseError'] = idx.exception_class_chain('XMLSchemaParseError', pe.module)
+    for q in ('xmlschema.validators.models.check_model', 'xmlschema.validators.groups.XsdGroup.check_model'):
+        f = idx.functions.get(q)
+        if f is None:
+            continue
+        for r in ast.walk(f.node):
+            if isinstance(r, ast.Raise) and isinstance(r.exc, ast.Call):
+                nm_ = text(r.exc.func).split('.')[-1]
+                raised[nm_] = idx.exception_class_chain(text(r.exc.func), f.module)
+    ctx.floor(rule, 'exception classes raised for a defective schema', len(raised), 2)
+    n = 0
+    for cq in ('xmlschema.validators.elements.XsdElement', 'xmlschema.validators.elements.Xsd11Element'):
+        c = idx.cls(cq)
+        f = c.methods.get('check_dynamic_context')
+        if f is None:
+            continue
+        ctx.analysed(f.qualname)
+        parents = enclosing_map(f.node)
+        for w in ast.walk(f.node):
+            if not (isinstance(w, ast.With) and any(isinstance(i.context_expr, ast.Call) and isinstance(i.context_expr.func, ast.Attribute)
+                                                   and i.context_expr.func.attr == 'protect_status' for i in w.items)):
+                continue
+            n += 1
+            hs = site_handlers(f, w, parents)
+            for exc in sorted(raised):
+                cover = None
+                for h in hs:
+                    names = handler_classes(ctx, f, [h])
+                    if raised[exc] & names:
+                        cover = h
+                        break
+                reports = cover is not None and any(is_reporter_call(cl) for cl in calls(cover)) and not any(isinstance(x, ast.Raise) for x in ast.walk(cover))
+                ctx.ob(rule, f'{c.name}.check_dynamic_context: {exc} from the build of a hinted schema is reported as a validation error', f.loc(cover) if cover else f.loc(w), reports,
+                       '' if reports else f'no reporting handler for {exc}: a hinted schema with a Unique Particle Attribution violation makes iter_errors(use_location_hints=True) raise '
+                       'instead of collecting - lax mode raises for a document that merely names a wrong schema', key=f'{f.qualname}|hint-build|{exc}')
+    ctx.floor(rule, 'sites that build a hinted schema', n, 2)
+    ctx.explain('C11.s: raise-set of XsdValidator.parse_error (strict) and check_model; handler coverage (class chains) at the protect_status blocks of both check_dynamic_context '
+                'implementations; the covering handler calls a reporter and does not raise.')
+
+
+RULES = [rule_a, rule_b, rule_c, rule_d, rule_e, rule_f, rule_g, rule_h, rule_i, rule_j, rule_k, rule_l, rule_m, rule_n, rule_o, rule_p, rule_q, rule_r, rule_s]
